@@ -186,4 +186,4 @@ KNOWN_PREDICATES = {}
 
 # coverage-guided second driver (atheris / libFuzzer through Hypothesis' fuzz_one_input) for the core clauses: (clause, quick runs, thorough runs)
 from harness.covfuzz import cov_clauses  # noqa: E402
-CLAUSES += cov_clauses('C01', CLAUSES, [('nfa_accept', 3000, 60000), ('dfa_accept', 1500, 30000), ('object_history', 1500, 30000)])
+CLAUSES += cov_clauses('C01', CLAUSES, [('nfa_accept', 3000, 20000), ('dfa_accept', 1500, 10000), ('object_history', 1500, 10000)])
